@@ -380,6 +380,97 @@ events:
 	return nil
 }
 
+// flushRoundsCase: several rounds on ONE connection; in each round 1-3 requests
+// are held inside the backend, each is flushed (the flush really waits), then
+// they are released. Whatever the server recycles between rounds (tags, wait
+// structures), no Rflush may arrive while its request is still held.
+type flushRoundsCase struct {
+	Native bool  `json:"native_walkgetattr"`
+	Rounds []int `json:"rounds"`  // number of simultaneously held requests per round (1..3)
+	NoWait []int `json:"no_wait"` // rounds (indices) whose requests are NOT flushed
+}
+
+func runFlushRoundsCase(c flushRoundsCase) *fail {
+	p, f := newPipe(3, c.Native)
+	if f != nil {
+		return f
+	}
+	defer p.close()
+	desc := fmt.Sprintf("%+v", c)
+	skip := map[int]bool{}
+	for _, r := range c.NoWait {
+		skip[r] = true
+	}
+	tag := uint16(100)
+	for ri, k := range c.Rounds {
+		if k < 1 {
+			k = 1
+		}
+		if k > 3 {
+			k = 3
+		}
+		type heldReq struct {
+			gate      *memfs.Gate
+			tag, ftag uint16
+			flushed   bool
+		}
+		var hs []*heldReq
+		for i := 0; i < k; i++ {
+			hh := p.handles[uint64(100+i)]
+			g := memfs.NewGate(func(cl *memfs.Call) bool { return cl.Handle == hh && cl.Op == "GetAttr" })
+			p.fs.AddGate(g)
+			tag += 2
+			h := &heldReq{gate: g, tag: tag, ftag: tag + 1}
+			hs = append(hs, h)
+			p.s.Send(refcodec.Encode(withTag(tGetattr(uint64(100+i)), h.tag)))
+			select {
+			case <-g.Entered:
+			case <-time.After(20 * time.Second):
+				return failf("request-not-served:gated", "round %d: request %d never reached the backend (%s)", ri, i, desc)
+			}
+		}
+		if !skip[ri] {
+			for _, h := range hs {
+				p.s.Send(refcodec.Encode(withTag(tFlush(uint64(h.tag)), h.ftag)))
+				h.flushed = true
+			}
+			p.s.C2S.WaitConsumed(p.s.C2S.Written(), 5*time.Second)
+			time.Sleep(4 * time.Millisecond)
+			if f := p.drain(3 * time.Millisecond); f != nil {
+				return f
+			}
+			for _, fr := range p.frames {
+				for _, h := range hs {
+					if fr.Type == refcodec.Rflush && fr.Tag == h.ftag {
+						return failf("rflush-before-target-finished:round", "round %d of a connection: Rflush (tag %d) arrived while the flushed Tgetattr (tag %d) was still held inside the backend; %d requests were held in this round (%s)", ri, h.ftag, h.tag, k, desc)
+					}
+				}
+			}
+		}
+		for _, h := range hs {
+			h.gate.Release()
+		}
+		for _, h := range hs {
+			if ok, f := p.waitFor(h.tag, 1, 20*time.Second); f != nil || !ok {
+				if f != nil {
+					return f
+				}
+				return failf("flushed-request-lost-its-reply:round", "round %d: the Tgetattr with tag %d got no reply (%s)", ri, h.tag, desc)
+			}
+			if h.flushed {
+				if ok, f := p.waitFor(h.ftag, 1, 20*time.Second); f != nil || !ok {
+					if f != nil {
+						return f
+					}
+					return failf("flush-not-answered", "round %d: Tflush tag %d was never answered (%s)", ri, h.ftag, desc)
+				}
+			}
+		}
+		p.fs.ClearGates()
+	}
+	return nil
+}
+
 var flushTargets = []string{"read", "write", "walk3", "rename", "create", "getattr", "mkdir", "readdir", "clunk", "remove", "walk-replace", "walk-fail", "rename-release"}
 
 func genFlushCase(rt *rapid.T) flushCase {
@@ -424,6 +515,7 @@ func genFlushCase(rt *rapid.T) flushCase {
 
 func init() {
 	replayRegistrars = append(replayRegistrars, func() {
+		registerReplay("C14/rounds", runFlushRoundsCase)
 		registerReplay("C14/schedules", func(c flushCase) *fail { return runFlushCase(c, nil) })
 		registerReplay("C14/enumerated", func(c flushCase) *fail { return runFlushCase(c, nil) })
 	})
@@ -477,6 +569,20 @@ func TestC14(t *testing.T) {
 		}
 		h.Exhaustive(fmt.Sprintf("%d flushed request types (incl. requests whose backend call is the release of a File) x 3 hold positions x event sets (every order for the small sets)", len(flushTargets)))
 	}
+	rapidCases(h, "rounds", env.PerShard(env.Pick(240, 12000)), func(rt *rapid.T) flushRoundsCase {
+		c := flushRoundsCase{Native: rapid.Bool().Draw(rt, "native")}
+		n := rapid.IntRange(2, 5).Draw(rt, "rounds")
+		for i := 0; i < n; i++ {
+			c.Rounds = append(c.Rounds, rapid.IntRange(1, 3).Draw(rt, "k"))
+			if rapid.IntRange(0, 4).Draw(rt, "nowait") == 0 {
+				c.NoWait = append(c.NoWait, i)
+			}
+		}
+		return c
+	}, func(c flushRoundsCase) *fail {
+		h.Case(evid.HashJSON(c), len(c.Rounds) >= 2, "rounds")
+		return runFlushRoundsCase(c)
+	})
 	rapidCases(h, "schedules", env.PerShard(env.Pick(1200, 120000)), genFlushCase, func(c flushCase) *fail {
 		st := &flushStats{}
 		f := runFlushCase(c, st)
